@@ -9,6 +9,7 @@ use vstd::std_specs::hash::*;
 verus! {
 broadcast use vstd::std_specs::hash::group_hash_axioms;
 //@include prelude/time.rs
+//@include prelude/std_misc.rs
 //@include prelude/agent.rs
 //@include inc/timers_decl.rs
 // every primitive / Duration constant of client.rs (new ones follow automatically)
